@@ -30,7 +30,7 @@
    one (hypothesis [no_suppressed_better] = exactly the negation of that input class, on the calls
    answered before the deadline), C09_deadline_refuted* exhibit the witness, and
    C09_deadline_winner_is_max_value_record says what the code computes for all inputs. *)
-From Verif Require Import Lib.Base Model.C09_Auction Model.C09_Spec Proofs.C09 Proofs.C09_Spec Check.C09 Proofs.C09_Check.
+From Verif Require Import Lib.Base Model.C09_Auction Model.C09_Spec Proofs.C09 Proofs.C09_Spec Check.C09 Proofs.C09_Check Proofs.C09_Dup.
 
 (* ------------------------------------------------------------------------------------------- *)
 (* Score and eligibility. *)
@@ -446,3 +446,50 @@ Example C09_ex_later_calls :
      = [(Some 1, false)]
   /\ late_queries [] CNothing [(Best 500, rs_later); (Best 500, rs)] = [(Some 501, true); (Some 501, false)].
 Proof. vm_compute. repeat split. Qed.
+
+(* ------------------------------------------------------------------------------------------- *)
+(* The same bid message at several relays / under several signatures.  A bid MESSAGE (value, builder,
+   fee recipient, timestamp, header) does not say who vouches for it: eligibility is decided for the
+   relay that offers it, by that relay's own key and that relay's own minimum.  Whatever a strategy
+   instance has learnt about a message (from another relay, an earlier poll, an earlier auction)
+   changes nothing. *)
+
+(* a message that is eligible at relay r is NOT eligible at a relay whose known key did not sign the
+   copy it offers *)
+Theorem C09_same_message_judged_by_the_offering_relays_key :
+  forall r r' b b' k',
+    eligible r b = true ->
+    b_value b' = b_value b -> b_builder b' = b_builder b -> b_zero_recipient b' = b_zero_recipient b ->
+    b_ts_delta b' = b_ts_delta b -> b_header b' = b_header b ->
+    eff_key r' = Some k' -> b_signer b' <> k' ->
+    eligible r' b' = false.
+Proof. exact same_message_other_key_not_eligible. Qed.
+Print Assumptions C09_same_message_judged_by_the_offering_relays_key.
+
+(* ... nor at a relay whose minimum is above its value *)
+Theorem C09_same_message_judged_by_the_offering_relays_minimum :
+  forall r r' b b',
+    eligible r b = true -> b_value b' = b_value b -> b_value b < r_min r' -> eligible r' b' = false.
+Proof. exact same_message_below_other_minimum_not_eligible. Qed.
+Print Assumptions C09_same_message_judged_by_the_offering_relays_minimum.
+
+(* either strategy, every arrival order: a relay (of known key) none of whose answers carries its own
+   key's signature -- it forwards what others signed -- is never listed for unblinding *)
+Theorem C09_relay_that_only_forwards_is_never_listed :
+  forall cfgs s rs ord w r k,
+    arrival_order s rs ord -> st_win (result_of cfgs s ord) = Some w ->
+    NoDup (map r_idx rs) -> In r rs -> eff_key r = Some k ->
+    (forall t c b, In (t, c, RBid b) (answered s r) -> b_signer b <> k) ->
+    ~ In (r_idx r) (st_providers (result_of cfgs s ord)).
+Proof. exact forwarding_relay_never_listed. Qed.
+Print Assumptions C09_relay_that_only_forwards_is_never_listed.
+
+(* relay 0 (key 1) signs the message, relay 1 (key 2) forwards it with relay 0's signature and answers
+   first: the signed copy wins and only relay 0 is listed, under both strategies *)
+Example C09_ex_forwarded_copy :
+  eligible (dup_relay 0 1 96%Z (dup_msg 1 1)) (dup_msg 1 1) = true
+  /\ eligible (dup_relay 1 2 49%Z (dup_msg 1001 1)) (dup_msg 1001 1) = false
+  /\ (forall s, In s [Best 500; Deadline 500 64] ->
+        option_map (fun w => b_uid (p_bid w)) (st_win (strategy_result [] s dup_rs)) = Some 1
+        /\ st_providers (strategy_result [] s dup_rs) = [0]).
+Proof. exact dup_example. Qed.
